@@ -446,11 +446,14 @@ void ep2_mul_basic(ep2_t r, const ep2_t p, const bn_t k) {
 #if EP_MUL == SLIDE || !defined(STRIP)
 
 void ep2_mul_slide(ep2_t r, const ep2_t p, const bn_t k) {
+	bn_t m, n;
 	ep2_t t[1 << (RLC_WIDTH - 1)], q;
 	uint8_t win[RLC_FP_BITS + 1];
 	size_t l;
 
 	ep2_null(q);
+	bn_null(m);
+	bn_null(n);
 
 	if (bn_is_zero(k) || ep2_is_infty(p)) {
 		ep2_set_infty(r);
@@ -458,12 +461,18 @@ void ep2_mul_slide(ep2_t r, const ep2_t p, const bn_t k) {
 	}
 
 	RLC_TRY {
+		bn_new(m);
+		bn_new(n);
 		for (int i = 0; i < (1 << (RLC_WIDTH - 1)); i ++) {
 			ep2_null(t[i]);
 			ep2_new(t[i]);
 		}
 
 		ep2_new(q);
+
+		/* The window buffer only covers the bit length of the order. */
+		ep2_curve_get_ord(n);
+		bn_mod(m, k, n);
 
 		ep2_copy(t[0], p);
 		ep2_dbl(q, p);
@@ -483,7 +492,7 @@ void ep2_mul_slide(ep2_t r, const ep2_t p, const bn_t k) {
 
 		ep2_set_infty(q);
 		l = RLC_FP_BITS + 1;
-		bn_rec_slw(win, &l, k, RLC_WIDTH);
+		bn_rec_slw(win, &l, m, RLC_WIDTH);
 		for (size_t i = 0; i < l; i++) {
 			if (win[i] == 0) {
 				ep2_dbl(q, q);
@@ -496,14 +505,13 @@ void ep2_mul_slide(ep2_t r, const ep2_t p, const bn_t k) {
 		}
 
 		ep2_norm(r, q);
-		if (bn_sign(k) == RLC_NEG) {
-			ep2_neg(r, r);
-		}
 	}
 	RLC_CATCH_ANY {
 		RLC_THROW(ERR_CAUGHT);
 	}
 	RLC_FINALLY {
+		bn_free(m);
+		bn_free(n);
 		for (size_t i = 0; i < (1 << (RLC_WIDTH - 1)); i++) {
 			ep2_free(t[i]);
 		}
